@@ -25,7 +25,7 @@ TEXT = {
  'C06': ('seeded deterministic simulation: editor actor load -> store -> load -> store over canonical (writer) and foreign-producer files; byte identity / content equality per reference parser / fixed point',
          'exploration', '5 (C06)'),
  'C07': ('deterministic simulation with fault injection: producer crash / torn write / transfer cut at EVERY byte of each generated file, reader overtaking writer, length faults; prefix-of-intact-records oracle',
-         'fault_enumeration: the cut sweep is complete per file (every crash point 0..len), files and length faults are sampled', '6 (C07)'),
+         'fault_enumeration: the cut sweep is complete per file (every crash point 0..len) for files up to 4000 bytes whose sweep fits a deterministic cost bound (counted in the evidence probes), thinned or gridded otherwise; files and length faults are sampled', '6 (C07)'),
  'C08': ('deterministic simulation with fault injection: byte/token/line-level storage corruption, random bytes, DiffX-shaped soup, metadata nested beyond the recursion limit, injected read / seek errors, forward-only streams, a sniffing reader_cls hook; three consumers (stepped reader, from_bytes, from_stream with close tracking); error-contract oracle',
          'exploration of the corruption space; termination enforced by a stream-event cap and a CPU cap', '6 (C08)'),
  'C09': ('deterministic simulation with fault injection on the caller side: arbitrary call sequences with rejected calls (38 bad-argument variants) and injected write errors; hierarchy model, zero-write atomicity on the traced handle, twin run of accepted calls only; exhaustive sweep of short call sequences',
